@@ -440,6 +440,11 @@ func validAAEC(nonce []byte, kSeed int64) *document.ActiveAuthEvidence {
 // (curve tables, sync.Once, OID maps) happens outside the measured regions,
 // and self-checks the fixtures: the "valid" bundles must verify.
 func warmup() {
+	// a panic here must not take the test binary down: the properties report it properly
+	protect(warmupBody)
+}
+
+func warmupBody() {
 	doc := baseDoc()
 	if ev := validCAEvidence(dg14Genuine, []byte{1, 2, 3, 4, 5, 6, 7, 8, 9}, 2); ev != nil {
 		r, err := chipauth.VerifyEvidence(doc, ev)
